@@ -14,6 +14,9 @@ for f in sorted(glob.glob('/tmp/verif-ncorpus/C*.txt')):
     if bad:
         not_silent[nid] = bad
 for nid in old['passing']:
+    mp = '/verif/neutral/%s/meta.json' % nid
+    if os.path.exists(mp) and json.load(open(mp)).get('obsolete'):
+        continue      # every line it touched was rewritten by a repair: not replayed any more
     passing.setdefault(nid, old['passing'][nid])
 json.dump({'_comment': old['_comment'], 'passing': passing, 'not_silent': not_silent}, open('/verif/neutral/PASSING.json', 'w'), indent=1)
 print(len(passing), 'refactorings;', sum(1 for v in passing.values() if len(v) == 20), 'fully silent;', sum(len(v) for v in passing.values()), 'silent pairs')
